@@ -12,6 +12,7 @@ HEADER = 'From WM Require Import Base.Prelude RouterLife.Model RouterLife.Monito
 # which variant of the model corresponds to the code in the repo (flipped by the fix: commits)
 FIXED_D4 = True
 FIXED_D14 = True
+FIXED_D15 = True
 
 CODES = {
     1: ('C10/running-before-subscribed', 'Running() was closed while a handler registered before Run had no subscription'),
@@ -51,7 +52,7 @@ def map_scenario(sc):
         if e['p'].endswith('#released'):
             continue
         k0 = (e.get('k') or [''])[0]
-        if e['p'].startswith('router.life.') and k0.startswith('s') and '-h' in k0 and not k0.startswith('s%d-' % sc['id']):
+        if e['p'].startswith('router.') and k0.startswith('s') and '-h' in k0 and not k0.startswith('s%d-' % sc['id']):
             continue        # a goroutine of an earlier scenario's router finishing late
         evs.append(e)
     adds = [o for o in sc['ops'] if o['k'] == 'add']
@@ -76,8 +77,12 @@ def map_scenario(sc):
     nadd = [0]
     spawned = set(); early_recv = {}     # handler -> LRecv labels already emitted at the emit stamp
     loop_pc = {}; late_emit = {}; unspawned_emit = {}
+    pending_hc_ctx = set()
+    received = {(x.get('k') or ['', ''])[1] for x in evs if x['p'] == 'router.handler.received'}; recv_done = set(); recv_late = set()
     consumed = set()     # seq of add.signalled events already emitted (hand-off at the earlier stamp)
     pending_hc = set(); pending_pubclose = {}
+    pending_closing = []     # the closer's "closed=true; close(closingInProgressCh)" step, placed as late as the log allows
+    PROOF = ('router.life.hc.closing', 'router.handler.handleclose.closing_after_ctx', 'router.life.run.closing_seen', 'router.life.close.waited')
     def who(g):
         if g == main_g[0]: return 'LMain'
         if g == watch_g[0]: return 'LWatch'
@@ -97,6 +102,16 @@ def map_scenario(sc):
             ['AAdd %d %s' % (h, opt(pub_of(h)))] + ([] if hon_of(h) else ['AWeak']))
     for idx, e in enumerate(evs):
         p, k, g, seq = e['p'], e.get('k') or [], e['g'], e['seq']
+        if pending_closing and p in PROOF:
+            lab(pending_closing.pop())
+        if p == 'router.handler.received':
+            # the loop took a message (by UUID: the decorator pump may drop one that it holds when the context ends)
+            h = hnum(k[0])
+            if k[1] in recv_done: recv_done.discard(k[1])
+            else: lab('LRecv %d' % h); recv_late.add(k[1])
+            continue
+        if p.startswith('router.handler.handleclose.'):
+            continue
         if p.startswith('api.'):
             w = p[4:]
             if w == 'add.ret':
@@ -137,10 +152,9 @@ def map_scenario(sc):
                 call.pop(g, None); m.hist.append(('ACloseRet %d %s' % (int(k[0]), b(k[1])), e))
             elif w == 'emit':
                 h = int(k[0])
-                if late_emit.get(h, 0) > 0: late_emit[h] -= 1          # the receiver stamped first
-                elif h in spawned:
-                    lab('LRecv %d' % h); early_recv[h] = early_recv.get(h, 0) + 1
-                else: unspawned_emit[h] = unspawned_emit.get(h, 0) + 1
+                if k[1] in recv_late: recv_late.discard(k[1])          # the receiver stamped first
+                elif k[1] in received and h in spawned:                # hand-off at the earlier stamp
+                    lab('LRecv %d' % h); recv_done.add(k[1])
             elif w == 'processed':
                 h = int(k[0]) if k[0].isdigit() else -1
                 lab('LPublish %d' % h, ['AProcessed %d %s' % (h, b(k[1]))]); m.hist.append(('AProcessed %d %s' % (h, b(k[1])), e))
@@ -152,6 +166,8 @@ def map_scenario(sc):
                 h = int(k[0])
                 if h in pending_hc:
                     pending_hc.discard(h); lab('LHC %d true' % h)
+                elif h in pending_hc_ctx:
+                    pending_hc_ctx.discard(h); lab('LHC %d false' % h)
             elif w == 'sub.closed':
                 h = int(k[0])
                 if k[1] == 'ctx': lab('LSubCtx %d' % h)
@@ -221,6 +237,10 @@ def map_scenario(sc):
             watch_g[0] = g
             if wpc[0] == 'pre': lab('LWatch CStep'); wpc[0] = 'in'
             lab('LWatch CAlt')
+        elif w == 'watch.ctx_done':
+            watch_g[0] = g
+            if wpc[0] == 'pre': lab('LWatch CStep'); wpc[0] = 'in'
+            lab('LWatch CCtx')
         elif w == 'watch.waited':
             watch_g[0] = g; lab('LWatch CStep')
         elif w == 'isclosed':
@@ -231,14 +251,12 @@ def map_scenario(sc):
             t = call[g][1] if x.startswith('LT') else None
             ret = ['ACloseRet %d %s' % (t, closeret[t])] if t in closeret else None
             if x == 'LWatch': ret = []
-            if w == 'close.waited': lab(x + (' CStep' if k[0] == 'false' else ' CAlt'))
+            if w == 'close.closing': pending_closing.append(x + ' CStep')
+            elif w == 'close.waited': lab(x + (' CStep' if k[0] == 'false' else ' CAlt'))
             elif w in ('close.already', 'close.closed'): lab(x + ' CStep', ret)
             else: lab(x + ' CStep')
         elif w == 'loop.recv':
-            h = hnum(k[0])
-            if early_recv.get(h, 0) > 0: early_recv[h] -= 1
-            elif unspawned_emit.get(h, 0) > 0: unspawned_emit[h] -= 1; lab('LRecv %d' % h)
-            else: lab('LRecv %d' % h); late_emit[h] = late_emit.get(h, 0) + 1
+            pass        # see router.handler.received (same point, carries the message UUID)
         elif w == 'loop.range_done':
             h = hnum(k[0]); lab('LLoop %d' % h); loop_pc[h] = 'pubclose'
         elif w == 'loop.pub_close':
@@ -256,19 +274,27 @@ def map_scenario(sc):
         elif w == 'hc.closing':
             pending_hc.add(hnum(k[0]))
         elif w == 'hc.ctx':
-            lab('LHC %d false' % hnum(k[0]))
+            # select took ctx.Done; then the non-blocking poll of routersCloseCh (D6 repair).  Poll saw it open: the
+            # model step goes here (as early as the log allows); saw it closed: at the subscriber's Close stamp
+            h = hnum(k[0])
+            nxt = next((x for x in evs[idx + 1:] if x['g'] == g and x['p'].startswith('router.handler.handleclose.') and
+                        x['p'].rsplit('.', 1)[1] in ('closing_after_ctx', 'not_closing')), None)
+            if nxt is None: pass
+            elif nxt['p'].endswith('not_closing'): lab('LHC %d false' % h)
+            else: pending_hc_ctx.add(h)
         elif w == 'stop.enter':
             t = call.get(g, ('stop', 0))[1]
             lab('LT %d CStep' % t, ['AStopRet %d StopNotStarted' % t] if k[1] != 'true' else [])
         elif w == 'stop.call':
             t = call.get(g, ('stop', 0))[1]
             lab('LT %d CStep' % t, ['AStopRet %d %s' % (t, stopret[t])] if t in stopret else None)
+    while pending_closing: lab(pending_closing.pop())
     return m
 
 def case_term(m):
     labs = ['(%s, %s)' % (l, 'None' if e is None else 'Some %s' % C.coq_list(['(%s)' % x if ' ' in x else x for x in e])) for l, e in m.labels]
     hist = ['(%s)' % t if ' ' in t else t for t, _ in m.hist]
-    return '(LC %s %s %s %s)' % (C.coq_bool(FIXED_D4), C.coq_bool(FIXED_D14), C.coq_list(labs), C.coq_list(hist))
+    return '(LC %s %s %s %s %s)' % (C.coq_bool(FIXED_D4), C.coq_bool(FIXED_D14), C.coq_bool(FIXED_D15), C.coq_list(labs), C.coq_list(hist))
 
 def evaluate(pid, name, scs):
     mapped = [map_scenario(sc) for sc in scs]
@@ -346,8 +372,8 @@ ASSUMPTIONS = [
     'data races are outside the model',
 ]
 
-RULE = ('lifecycle client programs on a real Router with scripted subscribers/publishers: 23 forced schedules (park rules at router.life.* hook points: Stop/Stopped right after Started(), empty start with the watcher held, '
-        'RunHandlers x4 held mid-loop, Stop before the goroutine is spawned, loop held before wg.Done, held handleClose, the RunHandlers of Run held until Running() is observed, cancel on an empty router, failing Subscribe, shared/unshared publishers, foreign context, second Run, calls before Run, Close x3), '
+RULE = ('lifecycle client programs on a real Router with scripted subscribers/publishers: 28 forced schedules (park rules at router.life.* hook points: Stop/Stopped right after Started(), empty start with the watcher held, '
+        'RunHandlers x4 held mid-loop, Stop before the goroutine is spawned, loop held before wg.Done, held handleClose, the RunHandlers of Run held until Running() is observed, cancel on an empty router, failing Subscribe, shared/unshared publishers, foreign context, second Run during / after self-close / after Close / after cancel / after a failed Run, Stop while another handler is inside a slow handler call with a third handler probed, calls before Run, Close x3), '
         'pause point x client action pairs on a fixed 3-handler program, and seeded random programs over the C10 grammar with seeded yields at every hook; '
         'non-trivial = at least 25 model labels replayed; distinct by program and sizes.')
 
@@ -371,7 +397,7 @@ def run(ctx):
     run_family(ctx, res)
     res.rule = RULE
     res.extra['anchor_drift'] = C.anchor_hashes(['message/router.go'])
-    res.extra['model_variant'] = dict(fix4=FIXED_D4, fix14=FIXED_D14)
+    res.extra['model_variant'] = dict(fix4=FIXED_D4, fix14=FIXED_D14, fix15=FIXED_D15)
     return res
 
 def search(ctx, res):
